@@ -129,8 +129,21 @@ class Monitor(Observer):
         # (a) idempotence of update on a deep copy
         try:
             c = copy.deepcopy(root)
+            s0 = E.snap_world(bt, c) if (not root.stale and not step["pending"]) else None
             c.update(c.now)
             s1 = E.snap_world(bt, c)
+            if s0 is not None:
+                # the tree is fresh: this update is a repetition of the last one and must change nothing
+                cm0 = E.cmp_world(s0, s1)
+                ctx.count("idempotence-twins:fresh-tree-updated-again")
+                if cm0.diffs or cm0.nbit != cm0.nfloat:
+                    tolv0 = float(bt.core.TOL)
+                    dust0 = any(isinstance(m, bt.core.SecurityBase) and 0 < abs(m._position) < tolv0 for m in root.members)
+                    carry0 = (not cm0.diffs) and (not dust0) and any(hasattr(m, "_coupon_income") and m._position != 0 for m in root.members)
+                    ctx.violation("C08/update-not-idempotent" + (":dust" if dust0 else ":low-bits-after-carry-sweep" if carry0 else ""),
+                                  "after op %d %s: the tree was fresh, one more update of the same date changed the snapshot: %s"
+                                  % (i, step["op"]["op"], cm0.diffs[0] if cm0.diffs else "a float changed in the low bits"), {"spec": spec, "upto": i})
+                    return
             k = ctx.rng.randint(1, 3)
             for _ in range(k):
                 c.update(c.now)
@@ -145,7 +158,8 @@ class Monitor(Observer):
             what = exact[0] if exact else "a float changed in the low bits"
             tolv = float(bt.core.TOL)
             dust = any(isinstance(m, bt.core.SecurityBase) and 0 < abs(m._position) < tolv for m in root.members)
-            ctx.violation("C08/update-not-idempotent" + (":dust" if dust else ""), "after op %d %s: update x%d after update changed the snapshot: %s" % (i, step["op"]["op"], k, what),
+            carry = (not exact) and (not dust) and any(hasattr(m, "_coupon_income") and m._position != 0 for m in root.members)
+            ctx.violation("C08/update-not-idempotent" + (":dust" if dust else ":low-bits-after-carry-sweep" if carry else ""), "after op %d %s: update x%d after update changed the snapshot: %s" % (i, step["op"]["op"], k, what),
                           {"spec": spec, "upto": i})
         if step["pending"]:
             return
@@ -157,8 +171,16 @@ class Monitor(Observer):
         if lag and root.stale and (force or ctx.rng.random() < 0.5):
             idx = ctx.rng.choice(lag)
             ctx.count("freshness-twins:read-on-a-lagging-node")
+        # a security that was just closed (flat, still flagged) on a stale tree: its own series getters
+        just_closed = [j for j, m in enumerate(members) if isinstance(m, bt.core.SecurityBase) and m._position == 0 and m._needupdate and m.now == root.now]
+        jc = bool(just_closed) and bool(root.stale) and (self.p >= 1.0 or ctx.rng.random() < 0.5)
+        if jc:
+            idx = ctx.rng.choice(just_closed)
+            ctx.count("freshness-twins:series-getter-of-a-just-closed-security")
         is_sec = isinstance(members[idx], bt.core.SecurityBase)
-        attr = ctx.rng.choice((SERIES_SEC + SCALAR_SEC) if is_sec else (SERIES_STRAT + SCALAR_STRAT))
+        attr = ctx.rng.choice(SERIES_SEC if jc else (SERIES_SEC + SCALAR_SEC) if is_sec else (SERIES_STRAT + SCALAR_STRAT))
+        if jc and self.p >= 1.0:
+            attr = "positions"      # (corpus / scripted runs: deterministic)
         was_stale = bool(root.stale)
         try:
             c1 = copy.deepcopy(root)
@@ -176,12 +198,24 @@ class Monitor(Observer):
                 cmw = E.cmp_world(E.snap_world(bt, c1), E.snap_world(bt, c2))
                 ctx.count("freshness-twins:whole-tree-compared")
                 if cmw.diffs:
+                    m0 = members[idx]
+                    only_bo = all("idoffer" in str(dd.get("field", "")) for dd in cmw.diffs)
+                    if isinstance(m0, bt.core.SecurityBase) and m0._position == 0 and m0._needupdate and attr in SERIES_SEC and only_bo:
+                        ctx.violation("C08/read-is-not-an-update:just-closed-security-series-getter",
+                                      "after op %d %s: reading %s.%s (just closed, still flagged) on the stale tree: %s" % (i, step["op"]["op"], m0.full_name, attr, cmw.diffs[0]),
+                                      {"spec": spec, "upto": i})
+                        return
                     ctx.violation("C08/read-is-not-an-update:" + attr, "after op %d %s: reading %s.%s on the stale tree left a tree that differs from an explicit update: %s"
                                   % (i, step["op"]["op"], members[idx].full_name, attr, cmw.diffs[0]), {"spec": spec, "upto": i})
                     return
             except Exception as e:  # noqa
                 ctx.count("twin-compare-raised:" + E.classify_exc(e))
-        if canon(v1) != canon(v2):
+        if canon(v1) != canon(v2) and not was_stale and _numerically_equal(v1, v2) \
+                and any(hasattr(m, "_coupon_income") and m._position != 0 for m in root.members):
+            # the tree was fresh: the explicit update was a SECOND update of the date, and it moved the last bits (see the finding)
+            ctx.violation("C08/update-not-idempotent:low-bits-after-carry-sweep", "after op %d %s: a second update of the date changed %s.%s in the last bits: %r / %r"
+                          % (i, step["op"]["op"], members[idx].full_name, attr, _short(v1), _short(v2)), {"spec": spec, "upto": i})
+        elif canon(v1) != canon(v2):
             ctx.violation("C08/stale-read:" + attr, "after op %d %s: %s.%s read %r but after an explicit update %r"
                           % (i, step["op"]["op"], members[idx].full_name, attr, _short(v1), _short(v2)), {"spec": spec, "upto": i})
         if hasattr(v1, "index") and len(v1.index):
@@ -189,6 +223,16 @@ class Monitor(Observer):
             if not (isinstance(node_now, int) and node_now == 0) and v1.index[-1] > c1.now:
                 ctx.violation("C08/series-beyond-now:" + attr, "after op %d: %s.%s ends at %s but now is %s"
                               % (i, members[idx].full_name, attr, v1.index[-1], c1.now), {"spec": spec, "upto": i})
+
+
+def _numerically_equal(a, b):
+    import numpy as np
+    try:
+        x = np.asarray(a.values if hasattr(a, "values") else a, dtype=float).ravel()
+        y = np.asarray(b.values if hasattr(b, "values") else b, dtype=float).ravel()
+        return x.shape == y.shape and bool(np.all((x == y) | (np.abs(x - y) <= 1e-9 * np.maximum(1.0, np.abs(x))) | (np.isnan(x) & np.isnan(y))))
+    except Exception:
+        return False
 
 
 def _short(v):
@@ -233,7 +277,64 @@ def cached_reads(rng, spec):
     spec["oracle_all"] = True
 
 
+def dynamic_child_cases(ctx, bt, n):
+    """sub-strategies created while a run is going on (`bt.Strategy(name, parent=target)` + `setup_from_parent()`, as a pairs-trading
+    algo does), with reads of the parent's frames before and after the creation on the same date: every frame handed out still ends
+    at the current date, and a read is still what an explicit update leaves"""
+    import pandas as pd
+    from .. import gen_runs as R
+    for _ in range(n):
+        T = ctx.rng.randint(5, 12)
+        dates, _k = R.gen_index(ctx.rng, T)
+        idx = pd.DatetimeIndex(dates)
+        names = R.TICKERS[:ctx.rng.randint(2, 4)]
+        data = pd.DataFrame({t: [10.0 + 3 * j + i * (1 + j % 2) for i in range(T)] for j, t in enumerate(names)}, index=idx)
+        root = bt.Strategy("top", children=list(names))
+        root.setup(data)
+        root.adjust(100000.0)
+        k0 = ctx.rng.randint(0, T - 2)
+        for i in range(k0 + 1):
+            root.update(idx[i])
+        case = {"dyn": {"dates": dates, "names": names, "k0": k0}}
+        ctx.evaluations += 1
+        ctx.count("dynamic-child-cases")
+        reads_before = ctx.rng.random() < 0.7
+        if reads_before:
+            _ = root.universe
+            _ = root.values
+        kid_names = ["dyn%d" % j for j in range(ctx.rng.randint(1, 2))]
+        try:
+            for nm in kid_names:
+                kid = bt.Strategy(nm, children=[ctx.rng.choice(names)], parent=root)
+                kid.setup_from_parent()
+                if ctx.rng.random() < 0.5:
+                    root.allocate(1000.0, nm)
+        except Exception as e:  # noqa
+            ctx.count("dynamic-child:raised:" + E.classify_exc(e))
+            continue
+        for step in range(ctx.rng.randint(1, 3)):
+            now = root.now
+            for attr in ("universe", "values", "prices", "cash"):
+                try:
+                    v = getattr(root, attr)
+                except Exception as e:  # noqa
+                    ctx.count("dynamic-child:read-raised:" + E.classify_exc(e))
+                    continue
+                ctx.count("dynamic-child:frames-read")
+                if len(v.index) and v.index[-1] > now:
+                    ctx.violation("C08/series-beyond-now:" + attr, "after creating %r under top on %s (frames read before: %s): top.%s ends at %s (%d rows), now is %s"
+                                  % (kid_names, idx[k0].date(), reads_before, attr, v.index[-1].date(), len(v.index), now.date()), case)
+                    break
+            if attr == "universe" and any(nm not in root.universe.columns for nm in kid_names):
+                pass
+            nxt = idx.get_loc(root.now) + 1
+            if nxt >= T:
+                break
+            root.update(idx[nxt])
+
+
 def run(ctx, bt):
+    dynamic_child_cases(ctx, bt, ctx.scale(40, 600))
     run_engine_protocol(ctx, bt, ctx.scale(12, 150), [Monitor(ctx, 1.0)], None, None, spec_kwargs={"fi_tree": False},
                         spec_mutator=cached_reads, corr_name="step[C08]:read-trade-silently-update-read")
     for sp in corpus():
@@ -250,6 +351,9 @@ def search(ctx, bt):
 
 
 def replay(bt, data, ctx):
+    if "dyn" in data.get("case", {}):
+        dynamic_child_cases(ctx, bt, 200)       # regenerated from the seed of the run
+        return
     spec = data["case"]["spec"]
     steps, root, dates = run_history_observed(bt, spec, ctx.rng, len(spec["ops"]), [Monitor(ctx, 1.0)], ctx)
     model_compare(ctx, bt, [(spec, i, st) for i, st in enumerate(steps)], None, None, "step[C08]")
